@@ -49,7 +49,7 @@ where
     }
 
     fn data_layout(&self) -> DataLayout {
-        DataLayout::RowMajor
+        MatrixRef::data_layout(*self)
     }
 }
 
@@ -100,7 +100,7 @@ where
     }
 
     fn data_layout(&self) -> DataLayout {
-        DataLayout::RowMajor
+        MatrixRef::data_layout(&**self)
     }
 }
 
